@@ -30,6 +30,12 @@
 //!      backing claims must have dropped that claim, and only within the final
 //!      `end_of_life_claim_drop_period` of the sector's life.
 //!
+//! Claim terms are moved both ways the registry offers: `ExtendClaimTerms` by the client (bounded by
+//! the policy maximum; `term_max` exactly the policy maximum, unchanged, one less) and the
+//! DataCap-funded extension through the receiver hook (bounded by now + policy maximum − term_start,
+//! so that a claim's `term_max` can come to exceed the policy maximum; largest allowed value, one
+//! more, current + 1, one less). (T1) must hold across every order of the two.
+//!
 //! Accept/reject of every individual message is adopted from the implementation (an actor panic,
 //! e.g. the division by zero reachable through `ExtendSectorExpiration2` with `new_expiration ==
 //! current epoch == sector expiration`, is a rejection like any other: the property is silent).
@@ -127,10 +133,21 @@ pub enum Act {
     /// one `ExtendSectorExpiration2` message with two declarations (same deadline and partition)
     /// that both name the sector: (maintain, drop, new expiration) each, in message order
     ExtendTwice { sector: u64, first: (Vec<u64>, Vec<u64>, i64), second: (Vec<u64>, Vec<u64>, i64) },
-    /// `VerifiedRegistry.ExtendClaimTerms` by the client
-    ExtendTerm { claim: u64, term_max: i64 },
-    /// claim extension paid with DataCap (transfer to the registry carrying a `ClaimExtensionRequest`)
-    ExtendTermByDatacap { claim: u64, term_max: i64 },
+    /// `VerifiedRegistry.ExtendClaimTerms` by the client (`pick` says how `term_max` was chosen)
+    ExtendTerm {
+        claim: u64,
+        term_max: i64,
+        #[serde(default)]
+        pick: Pick,
+    },
+    /// claim extension paid with DataCap: the client transfers the claim's size in DataCap to the
+    /// registry with operator data carrying a `ClaimExtensionRequest` (the hook burns the tokens)
+    ExtendTermByDatacap {
+        claim: u64,
+        term_max: i64,
+        #[serde(default)]
+        pick: Pick,
+    },
     /// `RemoveExpiredClaims` by a stranger; empty = all eligible
     RemoveClaims(Vec<u64>),
     /// `RemoveExpiredAllocations` by a stranger; empty = all eligible
@@ -140,12 +157,47 @@ pub enum Act {
     Snap { sector: u64, allocs: Vec<u64> },
 }
 
+/// How the `term_max` of a claim-term action was chosen from the state (for the statistics only).
+#[derive(Clone, Copy, Debug, Default, Serialize, Deserialize, PartialEq, Eq)]
+pub enum Pick {
+    #[default]
+    Plus30,
+    /// current term_max + 1
+    Plus1,
+    /// the current term_max again
+    Same,
+    /// current term_max − 1
+    Minus1,
+    /// exactly `policy.maximum_verified_allocation_term`
+    PolicyMax,
+    /// the largest value a DataCap-funded extension may ask for now: now + policy maximum − term_start
+    LargestNow,
+    /// that + 1
+    LargestNowPlus1,
+}
+
+impl Pick {
+    fn label(&self) -> &'static str {
+        match self {
+            Pick::Plus30 => "current + 30",
+            Pick::Plus1 => "current + 1",
+            Pick::Same => "unchanged",
+            Pick::Minus1 => "current - 1",
+            Pick::PolicyMax => "exactly the policy maximum",
+            Pick::LargestNow => "largest allowed now",
+            Pick::LargestNowPlus1 => "largest allowed now + 1",
+        }
+    }
+}
+
 #[derive(Clone, Debug, Serialize)]
 pub struct M {
     pub base: usize,
     pub end: i64,
     pub ext_left: u8,
     pub term_left: u8,
+    /// DataCap-funded claim extensions still allowed
+    pub dc_left: u8,
     pub misc_left: u8,
     pub ticks_left: u8,
     pub onboard_left: u8,
@@ -160,6 +212,10 @@ pub struct Cfg {
     pub bases: Vec<&'static str>,
     pub ext: u8,
     pub term: u8,
+    pub dc: u8,
+    /// offer the small raises ExtendClaimTerms(current + 30) and DataCap-funded (current + 1) besides
+    /// "exactly the policy maximum" / "largest allowed now" (thorough tier)
+    pub plus30: bool,
     pub misc: u8,
     pub ticks: u8,
     pub onboard: u8,
@@ -630,6 +686,7 @@ impl Scn {
             end,
             ext_left: self.cfg.ext,
             term_left: self.cfg.term,
+            dc_left: self.cfg.dc,
             misc_left: self.cfg.misc,
             ticks_left: self.cfg.ticks,
             onboard_left: self.cfg.onboard,
@@ -828,7 +885,7 @@ impl Scn {
         if m.ext_left > 0 || m.misc_left > 0 || m.onboard_left > 0 {
             out.extend(sector.into_iter().filter(ok).take(self.cfg.jumps));
         }
-        if m.misc_left > 0 || m.term_left > 0 {
+        if m.misc_left > 0 || m.term_left > 0 || m.dc_left > 0 {
             out.extend(claim.into_iter().filter(ok).take(3));
         }
         if m.misc_left > 0 || m.onboard_left > 0 {
@@ -927,8 +984,8 @@ impl Scenario for Scn {
                     "extend twice in one message (claims maintained, then dropped)".into()
                 }
             }
-            Act::ExtendTerm { .. } => "extend-claim-terms".into(),
-            Act::ExtendTermByDatacap { .. } => "extend-claim-by-datacap".into(),
+            Act::ExtendTerm { pick, .. } => format!("extend-claim-terms ({})", pick.label()),
+            Act::ExtendTermByDatacap { pick, .. } => format!("extend-claim-by-datacap ({})", pick.label()),
             Act::RemoveClaims(v) => if v.is_empty() { "remove-expired-claims (all)".into() } else { "remove-expired-claims (listed)".into() },
             Act::RemoveAllocs(_) => "remove-expired-allocations".into(),
             Act::Terminate(_) => "terminate".into(),
@@ -1040,13 +1097,31 @@ impl Scenario for Scn {
             }
         }
         // ---- claim terms
-        if m.term_left > 0 {
+        if m.term_left > 0 || m.dc_left > 0 {
+            let policy_max = vm.policy.maximum_verified_allocation_term;
             for ((p, i), c) in &o.claims {
-                if *p == miner {
-                    v.push(Act::ExtendTerm { claim: *i, term_max: c.term_max + 30 });
-                    v.push(Act::ExtendTerm { claim: *i, term_max: c.term_max - 1 });
-                    v.push(Act::ExtendTermByDatacap { claim: *i, term_max: c.term_max + 30 });
-                    v.push(Act::ExtendTermByDatacap { claim: *i, term_max: c.term_max - 1 });
+                if *p != miner {
+                    continue;
+                }
+                if m.term_left > 0 {
+                    // by the claim's client: up to the policy maximum; never down
+                    for (t, pick) in [(c.term_max + 30, Pick::Plus30), (policy_max, Pick::PolicyMax), (c.term_max, Pick::Same), (c.term_max - 1, Pick::Minus1)] {
+                        if pick == Pick::Plus30 && !self.cfg.plus30 {
+                            continue;
+                        }
+                        v.push(Act::ExtendTerm { claim: *i, term_max: t, pick });
+                    }
+                }
+                if m.dc_left > 0 {
+                    // paid with DataCap: the limit is relative to the current epoch, so that a claim's
+                    // term_max can come to exceed the policy maximum once time has passed since term_start
+                    let largest = now + policy_max - c.term_start;
+                    for (t, pick) in [(c.term_max + 1, Pick::Plus1), (largest, Pick::LargestNow), (largest + 1, Pick::LargestNowPlus1), (c.term_max - 1, Pick::Minus1)] {
+                        if pick == Pick::Plus1 && !self.cfg.plus30 {
+                            continue;
+                        }
+                        v.push(Act::ExtendTermByDatacap { claim: *i, term_max: t, pick });
+                    }
                 }
             }
         }
@@ -1195,7 +1270,7 @@ impl Scenario for Scn {
                     }
                 }
             },
-            Act::ExtendTerm { claim, term_max } => {
+            Act::ExtendTerm { claim, term_max, .. } => {
                 let _r = ext(vm, c.client, &id(REG), &TokenAmount::zero(), VrMethod::ExtendClaimTerms as u64, Some(&ExtendClaimTermsParams { terms: vec![ClaimTerm { provider: miner, claim_id: *claim, term_max: *term_max }] }));
                 let changed = vm.actor(REG).unwrap().state != pre.reg_head;
                 if changed {
@@ -1203,12 +1278,12 @@ impl Scenario for Scn {
                 }
                 outcome = if changed { "accepted" } else { "rejected" };
             }
-            Act::ExtendTermByDatacap { claim, term_max } => {
+            Act::ExtendTermByDatacap { claim, term_max, .. } => {
                 let size = pre.claims.get(&(miner, *claim)).map(|cl| cl.size.0).unwrap_or(0);
                 let op = RawBytes::serialize(&AllocationRequests { allocations: vec![], extensions: vec![ClaimExtensionRequest { provider: miner, claim: *claim, term_max: *term_max }] }).unwrap();
                 let r = ext(vm, c.client, &id(DCAP), &TokenAmount::zero(), DcMethod::TransferExported as u64, Some(&TransferParams { to: id(REG), amount: tok(size), operator_data: op }));
                 if r.ok() {
-                    m.term_left = m.term_left.saturating_sub(1);
+                    m.dc_left = m.dc_left.saturating_sub(1);
                 }
                 outcome = if r.ok() { "accepted" } else { "rejected" };
             }
@@ -1298,9 +1373,9 @@ impl Scenario for Scn {
                 Mode::Commit => "PreCommitSectorBatch2 + ProveCommitSectors3 with verified_allocation_key pieces, then real PoSt",
             },
             "bases": self.cfg.bases,
-            "budgets": {"accepted extensions": self.cfg.ext, "accepted claim-term changes": self.cfg.term, "effective removals/terminations": self.cfg.misc, "single ticks": self.cfg.ticks, "replica updates": self.cfg.onboard, "sector-boundary jump targets offered per state": self.cfg.jumps},
+            "budgets": {"accepted extensions": self.cfg.ext, "accepted ExtendClaimTerms": self.cfg.term, "accepted DataCap-funded extensions": self.cfg.dc, "effective removals/terminations": self.cfg.misc, "single ticks": self.cfg.ticks, "replica updates": self.cfg.onboard, "sector-boundary jump targets offered per state": self.cfg.jumps},
             "alphabet": ["ExtendSectorExpiration2 with two declarations naming the same sector (claims maintained up to an allowed expiration + the bare sector to a later one, either order; the claims declared in both with the same / a different split; all dropped + the bare sector)", "ExtendSectorExpiration2: every maintain/drop/omitted split of the sector's claims, a claim named several times, a claim of another sector; new expiration in {unchanged, each claim's term end, term end + 1, far}",
-                         "ExtendClaimTerms by the client (term_max + 30, term_max - 1)", "claim extension by DataCap transfer (term_max + 30, term_max - 1)", "RemoveExpiredClaims (all / each id) by a stranger", "RemoveExpiredAllocations", "TerminateSectors", "ProveReplicaUpdates3 with every non-empty subset of the open allocations",
+                         "ExtendClaimTerms by the client (term_max in {current + 30 [thorough tier], exactly the policy maximum, current, current - 1})", "DataCap-funded claim extension: transfer of the claim size to the registry with a ClaimExtensionRequest (term_max in {current + 1 [thorough tier], now + policy maximum - term_start, that + 1, current - 1})", "RemoveExpiredClaims (all / each id) by a stranger", "RemoveExpiredAllocations", "TerminateSectors", "ProveReplicaUpdates3 with every non-empty subset of the open allocations",
                          "one epoch (default PoSt when the window opens + real cron)", "jump (the same, epoch by epoch) to the next boundaries per category: sector expiration -25/-24/-1/0/+1 and clean-up epoch; claim term end -1/0/+1; allocation expiration 0/+1; when every budget is spent: the last boundary before the horizon"],
             "oracle": "state relations S1-S3 and transition relations T1-T4 of the module comment, evaluated after every message and after every single epoch",
         })
@@ -1319,6 +1394,8 @@ fn cfg(mode: Mode, thorough: bool) -> Cfg {
         bases,
         ext: if thorough { 3 } else { 2 },
         term: if thorough { 2 } else { 1 },
+        dc: 1,
+        plus30: thorough,
         misc: 2,
         ticks: if thorough { 2 } else { 1 },
         onboard: 2,
